@@ -210,3 +210,19 @@ func appendUnique(s []string, v string) []string {
 func (g *procGen) stmts(depth, n int, transform bool) string {
 	return proc.RenderStmts(g.stmtList(depth, n, transform, false, false), g.r.Bool())
 }
+
+// withInits prepends an unconditional, correctly typed initialisation for every variable the
+// generator used, so that each variable keeps one type on every path ("single-typed").
+func (g *procGen) withInits(ss []proc.Stmt) []proc.Stmt {
+	var out []proc.Stmt
+	for _, n := range g.strVar {
+		out = append(out, proc.SSet{Name: n, X: proc.EStr{V: procStrs[g.r.Intn(len(procStrs))]}})
+	}
+	for _, n := range g.numVar {
+		out = append(out, proc.SSet{Name: n, X: proc.ENum{V: procNums[g.r.Intn(len(procNums))]}})
+	}
+	for _, n := range g.boolVar {
+		out = append(out, proc.SSet{Name: n, X: proc.EBool{V: g.r.Bool()}})
+	}
+	return append(out, ss...)
+}
